@@ -377,6 +377,45 @@ Section WfInst.
     end.
 End WfInst.
 
+(* the conditions of wf_inst that are about the OBJECT only (no wf_row): the class is in
+   the schema, attribute members are declared ones (each at most once, the ones __init__
+   presets are set), every child sits under a declared child member and is an object of
+   that member's class, a single-valued member holds at most one child, extension
+   attributes / elements do not collide with the class's own names, AttributeValue objects
+   are as constructor / parser leave them.  Over a schema with wf_schema S = true this is
+   all the round-trip theorem asks of an instance (Schema_lemmas.obj_ok_wf_inst). *)
+Section ObjOk.
+  Variables (NIL TYPE XMLNS_XS : N).
+  Fixpoint obj_ok (S : schema) (i : inst) : bool :=
+    match i with
+    | INone => false
+    | I c attrs text kids xattrs xelems =>
+        match find_row S c with
+        | None => false
+        | Some r =>
+            nodupN (map fst attrs) && subsetN (map fst attrs) (attr_members r)
+            && forallb (fun d => is_some (alookup (fst d) attrs)) (k_defaults r)
+            && forallb (fun p => let '(m, k) := p in
+                          match find_child_by_member r m with
+                          | Some ch => optN_eqb (c_cls ch) (cls_of k) && obj_ok S k
+                          | None => false end) kids
+            && forallb (fun ch => c_islist ch || (List.length (kids_of (c_member ch) kids) <=? 1)%nat) (k_children r)
+            && nodupN (map fst xattrs)
+            && forallb (fun p => negb (memN (fst p) (map a_xml (k_attrs r)))) xattrs
+            && forallb (fun x => negb (memN (xtag x) (map c_tagkey (k_children r)))) xelems
+            && match over_kind r with OAttrValue => av_ok NIL TYPE XMLNS_XS text xattrs | _ => true end
+        end
+    end.
+End ObjOk.
+
+(* the object cls() without arguments: the attribute members __init__ presets, nothing
+   else; an AttributeValue starts as empty text with xsi:nil=true *)
+Definition fresh_inst (NIL : N) (r : class_row) : inst :=
+  match over_kind r with
+  | OAttrValue => I (k_id r) [] (Some []) [] [(NIL, s2l "true")] []
+  | _ => I (k_id r) (k_defaults r) None [] [] []
+  end.
+
 (* the canonical representative parse produces: attributes in table order,
    children grouped by member in c_children order; nothing is dropped *)
 Definition norm_attrs (r : class_row) (attrs : list (N * str)) : list (N * str) :=
